@@ -528,7 +528,7 @@ func doTokens(rq *Req) *Resp {
 		}()
 		toks, err := parser.VerifTokens(srcReader(rq.Src, rq.Chunks), "<verif>")
 		for _, t := range toks {
-			resp.Events = append(resp.Events, t.Name+":"+t.Literal)
+			resp.Events = append(resp.Events, t.Name+"|"+strconv.Itoa(t.Line)+"|"+strconv.Itoa(t.Col)+"|"+t.Literal)
 		}
 		if err != nil {
 			resp.End = "lexerr"
